@@ -337,7 +337,7 @@ def proof_leg(prop: str):
     return info
 
 
-def coqchk_leg(prop: str, timeout=2400):
+def coqchk_leg(prop: str, timeout=10800):
     """independent re-check of the property's compiled closure with coqchk (thorough tier)"""
     try:
         listed_lines = {ln.strip() for ln in (COQ_DIR / "_CoqProject").read_text().splitlines() if not ln.strip().startswith("#")}
